@@ -103,6 +103,8 @@ class Lifecycle(object):
 
   def port_status(self, c, tag):
     c.ps_all.append(tag)
+    if not c.up and not c.lost:
+      c.async_before_up += 1
     if c.lost or not c.got_features:
       c.ps_optional.append(tag)
     else:
